@@ -1,7 +1,8 @@
 #!/bin/bash
 # self-evaluation: run every thorough command once, record rc and wall time (uses lane T so that evidence in /verif is not touched)
 cd "$(dirname "$0")"
-for c in C01 C02 C03 C04 C05 C06 C07 C08 C09 C10 C11 C12 C13 C14 C15 C16 C17 C18 C19; do
+LIST="$@"; [ -z "$LIST" ] && LIST="C01 C02 C03 C04 C05 C06 C07 C08 C09 C10 C11 C12 C13 C14 C15 C16 C17 C18 C19"
+for c in $LIST; do
   s=$(date +%s)
   out=$(VERIF_LANE=T ./check $c --tier thorough 2>&1); rc=$?
   e=$(date +%s)
